@@ -136,6 +136,7 @@ func genCase(t *rapid.T) Case {
 		}
 		c.Msgs = append(c.Msgs, m)
 	}
+	c.Unnamed = rapid.Bool().Draw(t, "unnamed-portal")
 	if rapid.IntRange(0, 3).Draw(t, "bounded-cache") == 0 {
 		c.StmtCap = 1
 	}
